@@ -288,6 +288,21 @@ func runBatch(c *run.Ctx, fn string, via string, ts, as, bs, cs []int) {
 		return "[" + strings.Join(s, ",") + "]"
 	}
 	driver := kinds.String() + fmt.Sprintf(`
+var $sane = (function(){
+  // Calls of one batch share a runtime. An earlier call may have given a shared
+  // object (a standard prototype, the global object) an own "length" of 2^32-1;
+  // every later array method on anything inheriting it then loops 2^32 times,
+  // which ES5 itself prescribes (resource exhaustion, outside the property).
+  var hop = Object.prototype.hasOwnProperty, G = this,
+      shared = [Object.prototype, Number.prototype, Boolean.prototype, Date.prototype, RegExp.prototype, Error.prototype, TypeError.prototype, RangeError.prototype, Math, JSON, G, Function.prototype];
+  return function(){
+    for (var i = 0; i < shared.length; i++) {
+      try { if (hop.call(shared[i], "length") && !(shared[i].length <= 70000)) { if (!delete shared[i].length) shared[i].length = 0 } } catch (e) {}
+    }
+    try { if (!(Array.prototype.length <= 70000)) Array.prototype.length = 0 } catch (e) {}
+    try { if (hop.call(String.prototype, "length") && !(String.prototype.length <= 70000)) delete String.prototype.length } catch (e) {}
+  };
+})();
 var $f; try { $f = %s } catch (e) { $f = undefined }
 var $T=%s,$A=%s,$B=%s,$C=%s,$start=%%d,$n=0;
 if (typeof $f === "function") {
@@ -295,6 +310,7 @@ for (var ti=0;ti<$T.length;ti++) for (var ai=0;ai<$A.length;ai++) for (var bi=0;
   if ($n++ < $start) continue;
   var t=$T[ti],a=$A[ai],b=$B[bi],c=$C[ci];
   %s
+  $sane();
   $mark(t,a,b,c);
   try { $touch(%s) } catch (e) { $touch(e) }
 }}
